@@ -62,7 +62,8 @@ theorem run_loop_none_heap (cfg : Cfg) (f : Nat) (s : State) (o : Nat) (fn : Boo
 /-- **accounting, release of a TRef / `.memlimit` chunk** (in a state that needs only the tree part
 of the invariant; the state without the chunk has it again) -/
 theorem acct_free_leaf' {rk : Nat → Nat} (cfg : Cfg) (hg : cfg.fixGone = true) (f : Nat) (s : State) (x : Nat)
-    (xb : Obj) (i : InvT rk s) (af : AF s) (hx : s.get x = some xb) (hk : xb.kind ≠ .plain)
+    (xb : Obj) (i : InvT rk s) (ac : AcctInv s) (flr : FlagsInv (s.remove x)) (hx : s.get x = some xb)
+    (hk : xb.kind ≠ .plain)
     (lc : xb.children = []) (lr : xb.refs = []) (ld : xb.dtor = .none) (lp : xb.pending = false)
     (ht : ∀ t, xb.kind = .ref t → t ≠ x)
     (i4' : ∀ q, ShapeEq (freeLeafS s x) q → InvT rk q)
@@ -105,7 +106,7 @@ theorem acct_free_leaf' {rk : Nat → Nat} (cfg : Cfg) (hg : cfg.fixGone = true)
       · simp [e]
       · simp only [e, if_false]; rw [hl]; exact freeBegin_afields' s x xb .none false j
     have fl4 : FlagsInv ((s3.remove x).addLog (.release x)) := by
-      apply FlagsInv.congr _ (flags_remove af.2 x)
+      apply FlagsInv.congr _ flr
       intro y
       have := hg4 y
       cases h1 : ((s3.remove x).addLog (.release x)).get y <;> cases h2 : (s.remove x).get y <;>
@@ -119,7 +120,7 @@ theorem acct_free_leaf' {rk : Nat → Nat} (cfg : Cfg) (hg : cfg.fixGone = true)
     have hl4 : ((s3.remove x).addLog (.release x)).heap.length = s.heap.length := by
       simp only [heap_addLog, length_remove]
       rw [hheap, length_freeBegin]
-    exact ⟨acct_remove_leaf i af.1 cfg hg x xb hx hleaf hg4 hl4 i4 fl4 _ s5 ha hoof,
+    exact ⟨acct_remove_leaf i ac cfg hg x xb hx hleaf hg4 hl4 i4 fl4 _ s5 ha hoof,
       (applyLim_eqButCur i4 cfg _ _ _ false s5 ha).flags fl4⟩
 
 theorem acct_free_leaf {rk : Nat → Nat} (cfg : Cfg) (hg : cfg.fixGone = true) (f : Nat) (s : State) (x : Nat)
@@ -130,7 +131,7 @@ theorem acct_free_leaf {rk : Nat → Nat} (cfg : Cfg) (hg : cfg.fixGone = true) 
     intro t hkk e; subst e
     obtain ⟨tb, htb, hm⟩ := i.wf.refBack t xb t hx hkk
     rw [hx] at htb; cases htb; rw [lr] at hm; cases hm
-  exact acct_free_leaf' cfg hg f s x xb i.t af hx hk lc lr ld lp ht
+  exact acct_free_leaf' cfg hg f s x xb i.t af.1 (flags_remove af.2 x) hx hk lc lr ld lp ht
     (fun q h => (Inv.t ⟨freeLeafS_wf i.wf hx hk, freeLeafS_ranked i.wf hx hk i.ranked⟩).shapeEq h) hoof
 
 
@@ -332,7 +333,7 @@ theorem unlink_step2 (cfg : Cfg) (ok : CfgOK cfg) (rk : Nat → Nat) (f : Nat) (
             i.ranked.refLt r rb x q hr hrk hqq'⟩
           rw [freeLeafS_get i.wf hr hrnp]; unfold eraseAll; simp [hqr, hqb])
         (by rw [nullCtx_freeLeafS]; exact hnull) (Nat.le_refl _) hcomm
-      exact acct_free_leaf' cfg ok.gone f _ r rb' iP afP hr' (e4 ▸ hrnp) (e2 ▸ lc) (e3 ▸ lr) (e6 ▸ ld) (e5 ▸ lp) ht
+      exact acct_free_leaf' cfg ok.gone f _ r rb' iP afP.1 (flags_remove afP.2 r) hr' (e4 ▸ hrnp) (e2 ▸ lc) (e3 ▸ lr) (e6 ▸ ld) (e5 ▸ lp) ht
         (fun q h => (g2.inv.shapeEq h).t) hoof
 
 
